@@ -4,7 +4,6 @@ import (
 	"github.com/simimpact/srsim/pkg/engine/event"
 	"github.com/simimpact/srsim/pkg/engine/info"
 	"github.com/simimpact/srsim/pkg/engine/prop"
-	"github.com/simimpact/srsim/pkg/key"
 	"github.com/simimpact/srsim/pkg/model"
 )
 
@@ -17,43 +16,35 @@ func (c *char) initTalent() {
 	c.engine.Events().HPChange.Subscribe(c.talentListener)
 }
 
-var (
-	hertaCountInsert = 0
-	hertaCount       = 0
-	hertaCountATK    = 0
-	// Map that keeps track of whether or not a given target is on cooldown for the purposes of herta's talent
-	passiveCooldowns = make(map[key.TargetID]bool)
-)
-
 func (c *char) talentListener(e event.HPChange) {
 	// if herta insert count = 1, set herta atk count to 0, herta insert count to 0
-	if hertaCountInsert == 1 {
-		hertaCountATK = 0
-		hertaCountInsert = 0
+	if c.hertaCountInsert == 1 {
+		c.hertaCountATK = 0
+		c.hertaCountInsert = 0
 	}
 
-	onCD, ok := passiveCooldowns[e.Target]
+	onCD, ok := c.passiveCooldowns[e.Target]
 
 	if e.NewHPRatio <= 0.5 {
 		// Check if enemy, is either not in the map (never seen before) or is in there and
 		if c.engine.IsEnemy(e.Target) && (!ok || !onCD) && !c.engine.HasBehaviorFlag(c.id, model.BehaviorFlag_STAT_CTRL) {
 			if len(c.engine.Enemies()) > 0 {
 				c.engine.Events().AttackEnd.Subscribe(c.talentAfterAttackListener)
-				hertaCount += 1
-				passiveCooldowns[e.Target] = true
+				c.hertaCount += 1
+				c.passiveCooldowns[e.Target] = true
 			}
 		}
 	} else if e.NewHPRatio > 0.5 {
 		// Reset "passivecooldown" flag on the enemy (happens in event of enemy being healed or otherwise restoring hp)
-		passiveCooldowns[e.Target] = false
+		c.passiveCooldowns[e.Target] = false
 	}
 }
 
 func (c *char) talentAfterAttackListener(e event.AttackEnd) {
-	if hertaCountATK == 0 && hertaCount > 0 && c.engine.IsCharacter(e.Attacker) && !c.passiveFlag {
+	if c.hertaCountATK == 0 && c.hertaCount > 0 && c.engine.IsCharacter(e.Attacker) && !c.passiveFlag {
 		if len(c.engine.Enemies()) > 0 {
-			hertaCountATK = 1
-			hertaCountInsert = 1
+			c.hertaCountATK = 1
+			c.hertaCountInsert = 1
 			c.engine.InsertAbility(info.Insert{
 				Source: c.id,
 				AbortFlags: []model.BehaviorFlag{
@@ -70,9 +61,9 @@ func (c *char) talentAfterAttackListener(e event.AttackEnd) {
 
 func (c *char) talentInsert() {
 	c.passiveFlag = true
-	hertaCountInsert = 0
-	for hertaCount > 0 && len(c.engine.Enemies()) > 0 {
-		hertaCount -= 1
+	c.hertaCountInsert = 0
+	for c.hertaCount > 0 && len(c.engine.Enemies()) > 0 {
+		c.hertaCount -= 1
 
 		if c.info.Eidolon >= 2 {
 			c.engine.AddModifier(c.id, info.Modifier{
